@@ -722,7 +722,18 @@ func genRandomCase(r *rand.Rand, maxT int) *vCase {
 		case "fld":
 			s.flds = append(s.flds, vFld{id: id(), parent: it.f.parent, outs: it.f.outs})
 		case "bnd":
-			s.bnds = append(s.bnds, vBnd{id: id(), iface: it.b.iface, provided: it.b.provided})
+			// mostly into the very set that holds the original binding: two bindings of one interface side by side
+			target := s
+			if r.Intn(3) != 0 {
+				for k := range c.sets {
+					for _, b := range c.sets[k].bnds {
+						if b.id == it.b.id {
+							target = &c.sets[k]
+						}
+					}
+				}
+			}
+			target.bnds = append(target.bnds, vBnd{id: id(), iface: it.b.iface, provided: it.b.provided})
 		case "arg":
 			c.sets[build].args = append(c.sets[build].args, it.arg)
 		}
